@@ -146,16 +146,16 @@ def digitsVal : Str → Nat → Nat
   | c :: cs, acc => digitsVal cs (acc * 10 + (c.toNat - 48))
 
 /-- Digits with single underscores between digits (`1_000`): the digits without the underscores,
-`none` if the shape is wrong (leading/trailing/double underscore, empty, other characters). -/
-def digitsUnderscore : Str → Option Str
-  | [] => none
-  | c :: cs =>
-    if isAsciiDigit c then
-      match cs with
-      | [] => some [c]
-      | '_' :: rest => (digitsUnderscore rest).map (c :: ·)
-      | _ => (digitsUnderscore cs).map (c :: ·)
+`none` if the shape is wrong (leading/trailing/double underscore, empty, other characters).
+`prevDigit`: the previous character was a digit. -/
+def digitsUnderscoreAux : Str → Bool → Option Str
+  | [], prevDigit => if prevDigit then some [] else none
+  | c :: cs, prevDigit =>
+    if isAsciiDigit c then (digitsUnderscoreAux cs true).map (c :: ·)
+    else if c == '_' && prevDigit then digitsUnderscoreAux cs false
     else none
+
+def digitsUnderscore (s : Str) : Option Str := digitsUnderscoreAux s false
 
 /-- Python `int(s)` for `str` (base 10): `none` = `ValueError` (including the 4300-digit limit). -/
 def pyIntOfStr (s : Str) : Option Int :=
